@@ -295,6 +295,9 @@ func (rn *runner) run(in *input, si int) (*result, error) {
 			case "op":
 				pending[[2]int{t.Conn, id}] = id
 				err = c.raw.Send("Tgetattr", uint16(id), wirecodec.Values{"fid": 100 + t.R, "request_mask": []string{"mode"}})
+			case "opn":
+				pending[[2]int{t.Conn, id}] = id
+				err = c.raw.Send("Tlock", uint16(id), wirecodec.Values{"fid": 100 + t.R, "type": 1, "flags": 1, "start": 0, "length": 1, "proc_id": 7, "client_id": "c"})
 			case "rename":
 				pending[[2]int{t.Conn, id}] = id
 				err = c.raw.Send("Trenameat", uint16(id), wirecodec.Values{"olddirfid": 100 + t.R, "oldname": t.Old, "newdirfid": 100 + t.Tgt, "newname": t.New})
